@@ -143,3 +143,168 @@ def cfg_zones(ctx):
             ok = got == [mm.param_names[1], f"{v}['start']", f"{v}['end']", f"{v}['name']"]
             detail = str(got)
     ctx.check(ok, 'zones:own-bounds', mm.site(), 'each predefined zone is MemoryZone(address bits, its start, its end, its name), stored under its name, none skipped', detail)
+
+
+# ------------------------------------------------------------------------------------------------ state discipline
+# Who may write which piece of mutable state. Every write to an attribute of `self` / `cls` outside __init__, every write
+# rooted at a module-level or class-level name, every `global` statement and every mutable default argument found in the
+# reviewed tree is listed here with its reason. Anything not listed is new state that survives from one statement (or
+# one lookup) to the next - a cache, a memo, a counter - and is refuted: the properties are stated per statement / per
+# lookup, and nothing in the reviewed design carries information between them except what is listed.
+
+_MUT = {'append', 'extend', 'add', 'pop', 'remove', 'clear', 'update', 'insert', 'setdefault', 'sort', 'reverse', 'discard', 'popitem', 'appendleft'}
+
+STATE_TABLE = {
+    ('AssemblerModel', '_global_label_scope'): {'global_label_scope'},        # lazily built once from the configuration
+    ('ConditionStack', '_active'): {'_push', 'process_condition'},
+    ('ConditionStack', '_stack'): {'_push', 'process_condition'},
+    ('ConditionStack', '_mute_counter'): {'_increment_mute_counter', '_decrement_mute_counter', 'process_condition'},
+    ('ElifPreprocessorCondition', '_parent'): {'_check_and_set_parent'},
+    ('ElsePreprocessorCondition', '_parent'): {'_check_and_set_parent'},
+    ('EndifPreprocessorCondition', '_parent'): {'_check_and_set_parent'},
+    ('PreprocessorCondition', '_parent'): {'_check_and_set_parent'},
+    ('PreprocessorCondition', '_latched_value'): {'latch'},                   # the branch decision, taken once when the directive is reached
+    ('IfPreprocessorCondition', '_lhs_expression'): {'_handle_matching'},     # construction helper called from __init__ only
+    ('IfPreprocessorCondition', '_operator'): {'_handle_matching'},
+    ('IfPreprocessorCondition', '_rhs_expression'): {'_handle_matching'},
+    ('EmbeddedString', '_bytes'): {'generate_bytes'},
+    ('FillDataLine', '_bytes'): {'generate_bytes'},
+    ('FillUntilDataLine', '_bytes'): {'generate_bytes'},
+    ('InstructionLine', '_bytes'): {'generate_bytes'},
+    ('PredefinedDataLine', '_bytes'): {'generate_bytes'},
+    ('LineWithBytes', '_bytes'): {'_append_byte'},
+    ('FillDataLine', '_count'): {'byte_size', 'generate_bytes'},              # value of the count expression, evaluated on first use
+    ('FillDataLine', '_value'): {'generate_bytes'},
+    ('FillUntilDataLine', '_fill_until_addr'): {'byte_size', 'generate_bytes'},
+    ('FillUntilDataLine', '_fill_value'): {'generate_bytes'},
+    ('LabelScope', '_global_scope'): {'global_scope'},                        # the process-wide global scope
+    ('LabelScope', '_labels'): {'set_label_value'},
+    ('LineObject', '_address'): {'set_start_address'},
+    ('LineObject', '_compilable'): {'compilable'},
+    ('LineObject', '_is_muted'): {'is_muted'},
+    ('LineObject', '_label_scope'): {'label_scope'},
+    ('MemoryZone', '_current_address'): {'current_address'},
+    ('MemoryZoneManager', '_zones'): {'create_zone'},
+    ('PackedBits', '_bytes'): {'append_bits'},
+    ('PackedBits', '_cur_bit_idx'): {'append_bits'},
+    ('PackedBits', '_cur_byte_idx'): {'append_bits'},
+    ('PageAlignLine', '_address'): {'set_start_address'},
+    ('PageAlignLine', '_page_size'): {'set_start_address'},
+    ('Preprocessor', '_symbols'): {'create_symbol'},
+}
+GLOBAL_STATE_TABLE = {
+    # compiled mnemonic pattern, built on first use from the model's mnemonics
+    'InstructionLine._INSTRUCTUION_EXTRACTION_PATTERN': {'bespokeasm.assembler.line_object.instruction_line.InstructionLine.factory'},
+}
+MUTABLE_DEFAULTS = {
+    'bespokeasm.assembler.assembly_file.AssemblyFile.load_line_objects', 'bespokeasm.assembler.memory_zone.manager.MemoryZoneManager.__init__',
+    'bespokeasm.assembler.preprocessor.Preprocessor.__init__', 'bespokeasm.assembler.preprocessor.Preprocessor.resolve_symbols',
+}
+
+
+def _root(e):
+    while isinstance(e, (ast.Attribute, ast.Subscript)):
+        e = e.value
+    return e
+
+
+def state_discipline(ctx, prefixes=('bespokeasm.assembler', 'bespokeasm.expression', 'bespokeasm.utilities')):
+    ctx.rule('STATE', 'no state outlives a statement except the reviewed writers (no caches, memos or counters added)', 1)
+    n_seen = 0
+    for q, fi in sorted(ctx.repo.functions.items()):
+        if not fi.module.name.startswith(tuple(prefixes)):
+            continue
+        fn = fi.node
+        params = {a.arg for a in fn.args.posonlyargs + fn.args.args + fn.args.kwonlyargs}
+        locals_ = {n.id for n in ast.walk(fn) if isinstance(n, ast.Name) and isinstance(n.ctx, ast.Store)} | params
+        for a in ([fn.args.vararg] if fn.args.vararg else []) + ([fn.args.kwarg] if fn.args.kwarg else []):
+            locals_.add(a.arg)
+        for n in ast.walk(fn):
+            if isinstance(n, ast.comprehension):
+                locals_ |= {x.id for x in ast.walk(n.target) if isinstance(x, ast.Name)}
+        writes = []      # (kind, text, attr or None, node)
+        for n in ast.walk(fn):
+            if isinstance(n, (ast.Global, ast.Nonlocal)):
+                writes.append(('global', ', '.join(n.names), None, n))
+            tg = n.targets if isinstance(n, ast.Assign) else ([n.target] if isinstance(n, (ast.AugAssign, ast.AnnAssign)) and getattr(n, 'value', True) is not None else [])
+            for t in tg:
+                for s_ in ([t] if not isinstance(t, (ast.Tuple, ast.List)) else t.elts):
+                    if isinstance(s_, (ast.Attribute, ast.Subscript)):
+                        writes.append(('store', unparse(s_), s_, n))
+            if isinstance(n, ast.Call) and isinstance(n.func, ast.Attribute) and n.func.attr in _MUT and isinstance(n.func.value, (ast.Attribute, ast.Subscript, ast.Name)):
+                writes.append(('mutate', unparse(n.func.value), n.func.value, n))
+        for kind, text, node, at in writes:
+            if kind == 'global':
+                ctx.refute(f'state:global:{ctx.short(fi)}:{text}', fi.site(at), 'no function rebinds module-level names', f'{type(at).__name__.lower()} {text}')
+                continue
+            r = _root(node)
+            if not isinstance(r, ast.Name):
+                continue
+            if r.id in ('self', 'cls') and fi.cls is not None:
+                # the attribute of self that is written / whose contents are changed
+                cur = node
+                while isinstance(cur, (ast.Attribute, ast.Subscript)) and not (isinstance(cur, ast.Attribute) and isinstance(cur.value, ast.Name)):
+                    cur = cur.value
+                if not isinstance(cur, ast.Attribute):
+                    continue
+                attr = cur.attr
+                if fi.name == '__init__' and r.id == 'self':
+                    continue
+                n_seen += 1
+                owners = [c for c in [fi.cls] + fi.cls.mro()[1:]]
+                allowed = set()
+                for c in owners:
+                    allowed |= STATE_TABLE.get((c.name, attr), set())
+                ctx.check(fi.name in allowed, f'state:{fi.cls.name}.{attr}:{fi.name}', fi.site(at),
+                          f'{fi.cls.name}.{attr} is written only by its reviewed writers',
+                          f'{fi.name} {"assigns" if kind == "store" else "changes the contents of"} {text}: state that survives to the next statement / lookup')
+            elif r.id not in locals_:
+                n_seen += 1
+                allowed = set()
+                for k, v in GLOBAL_STATE_TABLE.items():
+                    if text == k or text.startswith(k + '[') or text.startswith(k + '.'):
+                        allowed |= v
+                ctx.check(q in allowed, f'state:global:{ctx.short(fi)}:{text[:40]}', fi.site(at), 'module- and class-level objects are not modified while assembling',
+                          f'{unparse(at)[:80]} writes to {text}, which outlives the call')
+        for d in list(fn.args.defaults) + [k for k in fn.args.kw_defaults if k is not None]:
+            if isinstance(d, (ast.List, ast.Dict, ast.Set)) or (isinstance(d, ast.Call) and unparse(d.func) in ('set', 'list', 'dict', 'bytearray', 'defaultdict', 'collections.defaultdict')):
+                n_seen += 1
+                ctx.check(q in MUTABLE_DEFAULTS, f'state:mutable-default:{ctx.short(fi)}', fi.site(d), 'no new mutable default argument (one object shared by all calls)', unparse(d))
+    # module-level containers created for the purpose of being filled later
+    for m in ctx.repo.modules.values():
+        if not m.name.startswith(tuple(prefixes)):
+            continue
+        for st in m.tree.body:
+            v = getattr(st, 'value', None)
+            if isinstance(st, (ast.Assign, ast.AnnAssign)) and isinstance(v, ast.Call) and unparse(v.func).split('.')[-1] in (
+                    'WeakKeyDictionary', 'WeakValueDictionary', 'defaultdict', 'OrderedDict', 'Counter', 'deque', 'lru_cache', 'cache'):
+                n_seen += 1
+                ctx.refute(f'state:module-container:{m.name.split("bespokeasm.")[-1]}:{unparse(st)[:40]}', f'{m.relpath}:{st.lineno}',
+                           'no module-level container is created to be filled while assembling', unparse(st)[:100])
+            if isinstance(st, (ast.Assign, ast.AnnAssign)) and ((isinstance(v, ast.Dict) and not v.keys) or (isinstance(v, (ast.List, ast.Set)) and not v.elts)
+                                                                 or (isinstance(v, ast.Call) and unparse(v.func) in ('dict', 'set', 'list') and not v.args)):
+                n_seen += 1
+                ctx.refute(f'state:module-container:{m.name.split("bespokeasm.")[-1]}:{unparse(st)[:40]}', f'{m.relpath}:{st.lineno}',
+                           'no empty module-level container is created to be filled while assembling', unparse(st)[:100])
+    ctx.ok('state:scanned', '-', 'functions of the scope were scanned for state that outlives a call', f'{n_seen} writing site(s) in modules {", ".join(x.split("bespokeasm.")[-1] for x in prefixes)}')
+
+
+def exact_lookup(ctx, qualname: str, table: str, what: str, key: str):
+    """The accessor returns the table's entry for exactly the name it was given, or None: no translation of the name, no
+    short cut for special names, no fall-back to another entry."""
+    from engine.normalize import _structure_returns
+    import copy
+    fn = ctx.repo.func(qualname)
+    p = fn.call_params[0].arg
+    body = [s_ for s_ in copy.deepcopy(fn.node.body) if not (isinstance(s_, ast.Expr) and isinstance(s_.value, ast.Constant))]
+    body = _structure_returns(body) or body
+    direct = (f'self.{table}.get({p}, None)', f'self.{table}.get({p})')
+    ok = len(body) == 1 and isinstance(body[0], ast.Return) and unparse(body[0].value) in direct
+    if not ok and len(body) == 1 and isinstance(body[0], ast.If):
+        i = body[0]
+        t = unparse(i.test)
+        a = [unparse(x) for x in i.body]
+        b = [unparse(x) for x in i.orelse]
+        ok = (t == f'{p} in self.{table}' and a == [f'return self.{table}[{p}]'] and b == ['return None']) or \
+             (t == f'{p} not in self.{table}' and b == [f'return self.{table}[{p}]'] and a == ['return None'])
+    ctx.check(ok, key, fn.site(), f'{what} is looked up under exactly the name given (or is None)', '; '.join(unparse(x)[:80] for x in fn.node.body[:4]))
